@@ -42,6 +42,10 @@ MANIFEST = {
             "theorems speak about every shipped class; the translated receive path equals Node.receivers on every reachable node "
             "(no hypothesis); the transport terminates for every pair of nodes built from shipped classes (the bound on programs "
             "per node follows from the regenerated class registry). "
+            "ROUND 6: the connection state machine of the C2 suite is modelled and proved (a beacon sends its keep-alive exactly on the "
+            "tick the inactivity counter reaches keep_alive_frequency; answered -> established for ever; unanswered -> the connection "
+            "is reset and the beacon close()s itself on that tick; the server resets after more than keep_alive_frequency silent "
+            "ticks; commands need a remote; only a RUNNING, healthy instance with an active connection does anything at a tick). "
             "CONNECTION BOOKKEEPING (add_connection / terminate_connection): health becomes OVERWHELMED exactly when a connection is "
             "requested at max_sessions; the table never exceeds max_sessions. "
             "Tie: guard tables, validators, countdown idioms, enum values, defaults, the shipped-class table (every receive() "
@@ -51,8 +55,9 @@ MANIFEST = {
             "Firewall nodes over every shipped class; R-recv on two real hosts joined by a real link (real receive of the six "
             "modelled classes, real NIC/ARP/HostNode/SessionManager/SoftwareManager transport); R-conn and R-bot on real instances.",
     "note": "C13-specific: payload processing is modelled for DNS, NTP and web client/server and the three attack loops — FTP client / "
-            "server (STOR / RETR, files), database service / client, terminal (C16), the C2 beacon / server state machine are followed "
-            "only as far as routing and the running-guard; the web server's database access enters as a verdict (is a database client "
+            "server (STOR / RETR, files), database service / client, terminal (C16) are followed only as far as routing and the running-guard; of the C2 suite the "
+            "connection state machine is modelled (one tick, keep-alive handlers, command gate; the peer and the network enter as the "
+            "input `reply`), the command relay and the two-node keep-alive exchange are not; the web server's database access enters as a verdict (is a database client "
             "installed, what connection it hands out, do its queries succeed: C17's subject), the bots' random trials as inputs (C19's); "
             "URLs are taken as parsed (urlparse is trusted); two-node exchanges are "
             "modelled over an IDEAL transport (both nodes ON, peer's frame filter accepts; ARP, links, NIC state, ACLs are C08/C12/C18's "
@@ -66,7 +71,7 @@ MANIFEST = {
                  "tables, by source-to-Lean translation of the software manager's functions and by three differential rigs",
     "design_ref": "5/C13",
 }
-MODULES = ["PrimaiteModel.Props.C13", "PrimaiteModel.Lemmas.RegistriesRep", "PrimaiteModel.Props.C13Recv", "PrimaiteModel.Props.C13Bots"]
+MODULES = ["PrimaiteModel.Props.C13", "PrimaiteModel.Lemmas.RegistriesRep", "PrimaiteModel.Props.C13Recv", "PrimaiteModel.Props.C13Bots", "PrimaiteModel.Props.C13C2"]
 EXE = "drv_c13"
 EXE_W = "drv_c13recv"   # two nodes with class data and a transport (receive path, DNS / NTP payload processing)
 
@@ -255,6 +260,11 @@ def replay(rec: dict) -> bool:
         from harness.lib.core import lake_build
         lake_build([EXE, EXE_W])
     guards = _guards()
+    if "c2_case" in r:
+        res = wrig.run_c2_case(r["c2_case"])
+        if r.get("oracle"):
+            return not res["oracle"]
+        return run_driver(EXE_W, res["lines"]) == res["impl"]
     if "bot_case" in r:
         res = wrig.run_bot_case(r["bot_case"])
         if r.get("oracle"):
@@ -473,3 +483,27 @@ def run(ctx: Ctx):
                               {"bot_case": c, "from": "bot"})
     ctx.oblige("rig:R-bot (attack loops of the red applications) agrees on every trace", "correspondence", bagree == bcompared,
                f"{bcompared - bagree} of {bcompared} traces disagree")
+
+    # -- R-c2: one apply_timestep of a real C2Beacon / C2Server in every connection state, and the verdict of _check_connection
+    c2rng = ctx.rng.fork("c2")
+    c2_cases = [wrig.gen_c2_case(c2rng) for _ in range(ctx.scale(300, 5000))]
+    c2res = [wrig.run_c2_case(c) for c in c2_cases]
+    model_all = run_driver(EXE_W, [l for r in c2res for l in r["lines"]], timeout=3000)
+    pos, c2agree = 0, 0
+    for c, r in zip(c2_cases, c2res):
+        ctx.cov["traces_validated_against_impl"] += 1
+        ctx.case({"c2": c}, bool(r["sent"] or r["closed"]))
+        ctx.count(f"c2:{c['kind']}:{'ticking' if r['acts'] else 'idle'}:sent={r['sent']}:closed={r['closed']}")
+        ctx.count(f"c2:command-gate:{'open' if r['allowed'] else 'shut'}")
+        for (kind, detail) in r["oracle"]:
+            ctx.violation({"kind": kind, "c2": c["kind"]}, f"{kind}: {detail}", {"c2_case": c, "oracle": kind})
+        model = model_all[pos:pos + len(r["lines"])]
+        pos += len(r["lines"])
+        if model == r["impl"]:
+            c2agree += 1
+        else:
+            ctx.violation({"kind": "model-vs-impl", "where": "c2-connection", "c2": c["kind"]},
+                          f"C2 {c['kind']} connection handling differs from the proved model: lines={r['lines']!r} impl={r['impl']!r} model={model!r}",
+                          {"c2_case": c, "from": "c2"})
+    ctx.oblige("rig:R-c2 (C2 beacon / server connection state machine) agrees on every trace", "correspondence", c2agree == len(c2_cases),
+               f"{len(c2_cases) - c2agree} of {len(c2_cases)} traces disagree")
